@@ -125,6 +125,21 @@ def impl_run(case):
         else:
             res = W.guarded(lambda: x.convert(units[op['w']]).convert(units[op['v']]))
         return {'ops': seen, 'res': res, 'unchanged': before == W.observe(x)}
+    if o in ('iadd', 'isub'):
+        # augmented assignment: t = x; t += y must leave the object x refers to untouched
+        x, y = operand(op['x']), operand(op['y'])
+        before = W.observe(x) if hasattr(x, 'unit') else None
+
+        def aug():
+            t = x
+            if o == 'iadd':
+                t += y
+            else:
+                t -= y
+            return t
+        res = W.guarded(aug)
+        after = W.observe(x) if hasattr(x, 'unit') else None
+        return {'ops': seen, 'res': res, 'unchanged': before == after}
     if o in ('add', 'sub', 'eq', 'ne') or o in CMP:
         x, y = operand(op['x']), operand(op['y'])
         f = {'add': operator.add, 'sub': operator.sub, 'eq': operator.eq,
@@ -236,8 +251,8 @@ def coq_case(case, r):
     elif o == 'via':
         a, u = qv(op['x'])
         t = f"QConvertVia {cq(a)} {u} {views.coq(op['w'])} {views.coq(op['v'])}"
-    elif o in ('add', 'sub'):
-        t = f"QAddSub {cbool(o == 'sub')} {operand(op['x'])} {operand(op['y'])}"
+    elif o in ('add', 'sub', 'iadd', 'isub'):
+        t = f"QAddSub {cbool(o in ('sub', 'isub'))} {operand(op['x'])} {operand(op['y'])}"
     elif o in ('eq', 'ne'):
         t = f"QEq {operand(op['x'])} {operand(op['y'])}"
     elif o in CMP:
